@@ -15,7 +15,10 @@ fn main() {
 
 fn generate_char_fn_ranges(f: fn(char) -> bool) -> Vec<(u32, u32)> {
     let mut ranges: Vec<(u32, u32)> = vec![];
-    let mut current_range_start: Option<u32> = None;
+
+    // Start and (inclusive) end of the current range. End is the last scalar value that satisfies
+    // the predicate, which is not always the previous code point (surrogates are skipped).
+    let mut current_range: Option<(u32, u32)> = None;
 
     for i in 0..=u32::from(char::MAX) {
         let c = match char::try_from(i) {
@@ -24,12 +27,18 @@ fn generate_char_fn_ranges(f: fn(char) -> bool) -> Vec<(u32, u32)> {
         };
 
         if f(c) {
-            if current_range_start.is_none() {
-                current_range_start = Some(i);
-            }
-        } else if let Some(current_range_start) = current_range_start.take() {
-            ranges.push((current_range_start, i - 1));
+            current_range = match current_range {
+                None => Some((i, i)),
+                Some((start, _)) => Some((start, i)),
+            };
+        } else if let Some(range) = current_range.take() {
+            ranges.push(range);
         }
+    }
+
+    // The last range may extend to `char::MAX`
+    if let Some(range) = current_range {
+        ranges.push(range);
     }
 
     ranges
